@@ -12,6 +12,11 @@ UTC = _dt.timezone.utc
 
 
 # ---------------------------------------------------------------- times
+def _zone(name):
+    import zoneinfo
+    return zoneinfo.ZoneInfo(name)
+
+
 def time_from_json(j):
     """{'iso': '2020-01-01T00:00:00.000001+05:45'} or naive -> datetime."""
     if j is None:
@@ -19,6 +24,9 @@ def time_from_json(j):
     t = _dt.datetime.fromisoformat(j["iso"])
     if j.get("fold"):
         t = t.replace(fold=1)
+    if j.get("zone"):
+        # wall-clock time in a named zone (the tzinfo is a ZoneInfo object)
+        t = t.replace(tzinfo=_zone(j["zone"]))
     return t
 
 
@@ -86,6 +94,23 @@ def _t_us(t):
 def _t_year(t):
     return t.year
 
+
+def _dict_len(d):
+    return len(d)
+
+
+def _dict_get_a(d):
+    return d.get("a")
+
+
+def _dict_keys(d):
+    return ",".join(sorted(d))
+
+
+# functions at the head of a tag / field path: they receive the whole set
+PREMAPS = {"dict_len": _dict_len, "dict_get_a": _dict_get_a,
+           "dict_keys": _dict_keys}
+PREMAP_OUT = {"dict_len": "num", "dict_get_a": "any", "dict_keys": "str"}
 
 MAPS = {
     "upper": _upper, "upper_total": _upper_total, "first": _first,
@@ -194,6 +219,9 @@ class Collab:
             if self.fault[1] == "raise":
                 raise CollabError("injected failure in %s call %d"
                                   % (self.name, n))
+            if self.fault[1] == "interrupt":
+                raise CollabInterrupt("injected interrupt in %s call %d"
+                                      % (self.name, n))
             return self.fault[1][1]
         return self.fn(*a)
 
@@ -203,6 +231,11 @@ class Collab:
 
 class CollabError(RuntimeError):
     pass
+
+
+class CollabInterrupt(BaseException):
+    """A collaborator is interrupted (KeyboardInterrupt / SystemExit style):
+    not an Exception subclass."""
 
 
 def make_time_updater(spec):
@@ -257,6 +290,13 @@ def make_tags_updater(spec):
                              for k, v in tags.items()}
     if fn == "none_values":
         return lambda tags: {k: None for k in tags}
+    if fn == "inplace_merge":
+        c = dict(spec["arg"])
+
+        def inplace(tags):
+            tags.update(c)  # edits the dict it was given, returns it
+            return tags
+        return inplace
     raise KeyError(fn)
 
 
@@ -283,6 +323,13 @@ def make_fields_updater(spec):
     if fn == "incr_all":
         return lambda f: {k: (v + 1 if v is not None else None)
                           for k, v in f.items()}
+    if fn == "inplace_merge":
+        c = dict(spec["arg"])
+
+        def inplace(f):
+            f.update(c)
+            return f
+        return inplace
     raise KeyError(fn)
 
 
